@@ -7,6 +7,7 @@ from vlib import evlog, gens, instr_mp, models
 from vlib import ref_quadtree as rq
 
 PROPERTY = "C01"
+REPLAY_REPEATS = 10
 LEVEL = "exploration"
 JOBS = 12
 CASE_TIMEOUT = 150
